@@ -26,7 +26,7 @@ MUTATORS = ["norm", "asexp", "asexp_rev", "early", "diff_early", "embed", "at", 
 
 def jobs(tier, seed):
     js = []
-    pools = ["A", "B", "C", "D", "E", "F", "G"]
+    pools = ["A", "B", "C", "D", "E", "F", "G", "H"]
     hists = []
     for pool in pools:
         for t in ("e1", "e2", "e3", "s"):
@@ -39,6 +39,9 @@ def jobs(tier, seed):
             hists.append({"pool": pool, "hist": [["at", "s", "p"], ["at", "e1", "q"], ["embed", t]]})
             # a second simplification touching the same objects (flags are set by the first one)
             hists.append({"pool": pool, "hist": [["norm", t], ["norm", t]]})
+            hists.append({"pool": pool, "hist": [["norm", t], ["norm", t], ["norm", t], ["norm", t]]})
+            hists.append({"pool": pool, "hist": [["asexp", t], ["asexp", t], ["asexp", t], ["asexp_rev", t], ["asexp_rev", t]]})
+            hists.append({"pool": pool, "hist": [["diff_early", t, "q"], ["diff_early", t, "q"], ["early", t, "q"], ["early", t, "q"]]})
             hists.append({"pool": pool, "hist": [["asexp", t], ["asexp_rev", t]]})
             hists.append({"pool": pool, "hist": [["asexp", t], ["asexp", "e1" if t != "e1" else "e2"], ["asexp_rev", t]]})
             hists.append({"pool": pool, "hist": [["mk", "P", "partial_early", t], ["mk", "Q", "diff_early", t], ["q", "P", "q"], ["q", "Q", "p"]]})
